@@ -61,6 +61,9 @@ type Pool struct {
 
 	pruningHeight uint64
 	pruningTime   time.Time
+
+	// evidence reported by consensus, kept aside until the block of its height is committed
+	consensusBuffer []*types.DuplicateVoteEvidence
 }
 
 // NewPool creates an evidence pool. If using an existing evidence store,
@@ -119,6 +122,7 @@ func (evpool *Pool) Update(state cstate.LatestBlockState, ev types.EvidenceList)
 	evpool.updateState(state)
 
 	evpool.markEvidenceAsCommitted(ev)
+	evpool.processConsensusBuffer(state)
 
 	// prune pending evidence when it has expired. This also updates when the next evidence will expire
 	if evpool.Size() > 0 && state.LastBlockHeight > evpool.pruningHeight &&
@@ -156,6 +160,41 @@ func (evpool *Pool) markEvidenceAsCommitted(evidence types.EvidenceList) {
 	// remove committed evidence from the clist
 	if len(blockEvidenceMap) != 0 {
 		evpool.removeEvidenceFromList(blockEvidenceMap)
+	}
+}
+
+// processConsensusBuffer turns the conflicting votes consensus reported into evidence, for every height
+// whose block is committed, with that block's time and that height's validator set.
+func (evpool *Pool) processConsensusBuffer(state cstate.LatestBlockState) {
+	evpool.mtx.Lock()
+	buf := evpool.consensusBuffer
+	evpool.consensusBuffer = nil
+	evpool.mtx.Unlock()
+	var keep []*types.DuplicateVoteEvidence
+	for _, b := range buf {
+		if b.Height() > state.LastBlockHeight {
+			keep = append(keep, b)
+			continue
+		}
+		meta := evpool.blockStore.LoadBlockMeta(b.Height())
+		valSet, err := evpool.stateDB.LoadValidators(b.Height())
+		if meta == nil || err != nil {
+			continue
+		}
+		ev := types.NewDuplicateVoteEvidence(b.VoteA, b.VoteB, meta.Header.Time, valSet)
+		if ev == nil || evpool.isPending(ev) || evpool.isCommitted(ev) {
+			continue
+		}
+		if err := evpool.addPendingEvidence(ev); err != nil {
+			evpool.logger.Error("can't add evidence to pending list", "err", err)
+			continue
+		}
+		evpool.evidenceList.PushBack(ev)
+	}
+	if len(keep) > 0 {
+		evpool.mtx.Lock()
+		evpool.consensusBuffer = append(keep, evpool.consensusBuffer...)
+		evpool.mtx.Unlock()
 	}
 }
 
@@ -345,6 +384,14 @@ func (evpool *Pool) AddEvidence(ev types.Evidence) error {
 // AddEvidenceFromConsensus should be exposed only to the consensus so it can add evidence to the pool
 // directly without the need for verification.
 func (evpool *Pool) AddEvidenceFromConsensus(ev types.Evidence) error {
+	if dve, ok := ev.(*types.DuplicateVoteEvidence); ok {
+		// the time and the validator set of the evidence height are only known once that block is
+		// committed: remember the two votes, build the evidence in Update
+		evpool.mtx.Lock()
+		evpool.consensusBuffer = append(evpool.consensusBuffer, dve)
+		evpool.mtx.Unlock()
+		return nil
+	}
 	// we already have this evidence, log this but don't return an error.
 	if evpool.isPending(ev) {
 		evpool.logger.Info("Evidence already pending, ignoring this one", "ev", ev)
